@@ -51,7 +51,7 @@ pub fn eq_cose(out: &Item, exp: &Item) -> bool {
             match (read_all(x), read_all(y)) {
                 (ReadAll::One(ex), ReadAll::One(ey)) => {
                     let (ix, iy) = (ex.item(), ey.item());
-                    matches!(ix, Item::Map(_)) && ex.is_deterministic() && eq_cose(&ix, &iy)
+                    matches!(ix, Item::Map(_)) && ex.is_definite() && eq_cose(&ix, &iy)
                 }
                 _ => false,
             }
@@ -471,8 +471,9 @@ pub fn check_value(pid: &str, rv: &RVal, l: &mut Local) {
             return;
         }
     };
-    if !e.is_deterministic() {
-        l.viol(viol(pid, "output-not-definite-shortest", rv, "definite lengths and shortest heads".into(), hex(&bytes)));
+    // the property asks for well-formed definite-length CBOR (head widths are not pinned here)
+    if !e.is_definite() {
+        l.viol(viol(pid, "output-not-definite-length", rv, "definite lengths".into(), hex(&bytes)));
     }
     let out = e.item();
     if !eq_cose(&out, &exp) {
@@ -494,7 +495,7 @@ pub fn check_value(pid: &str, rv: &RVal, l: &mut Local) {
                 let tag = tag_of(rv.ty()).unwrap();
                 match read_exact(&tb) {
                     Ok(te) => {
-                        if !eq_cose(&te.item(), &Item::tag(tag, exp.clone())) || !te.is_deterministic() {
+                        if !eq_cose(&te.item(), &Item::tag(tag, exp.clone())) || !te.is_definite() {
                             l.viol(viol(pid, "tagged-output-differs", rv, format!("{}({:?})", tag, exp), format!("{:?}", te.item())));
                         }
                     }
